@@ -4,8 +4,8 @@
    models of Model/Handshake.v, Model/Origin.v and Model/CloseCodec.v compute.  A changed literal, comparison, order of checks or
    flag assignment in one of those places changes Gen/*.v and breaks a proof here. *)
 From Coq Require Import List NArith ZArith Bool Lia.
-From WS Require Import Base.Words Base.Str Gen.Consts Gen.CloseCode Gen.NegoCode Gen.DialCode Gen.OriginCode Gen.ClosePayloadCode Gen.TakeoverCode Gen.HeaderCode
-  Model.CloseCodec Model.Fold Model.Glob Model.Url Model.Origin Model.Proto Model.Handshake Model.HsCompose.
+From WS Require Import Base.Words Base.Str Gen.Consts Gen.CloseCode Gen.NegoCode Gen.DialCode Gen.OriginCode Gen.ClosePayloadCode Gen.TakeoverCode Gen.HeaderCode Gen.ParseCode
+  Model.CloseCodec Model.Fold Model.Glob Model.Url Model.Origin Model.Proto Model.Handshake Model.HsCompose Proofs.GenTieP.
 Import ListNotations.
 
 (* ---------- strings ---------- *)
@@ -267,3 +267,54 @@ Qed.
 (* an upgrading decision of the model carries the status the source writes *)
 Theorem accept_status_is_source : forall r o, ar_status (accept_decide r o) = 101%nat -> ar_status (accept_decide r o) = Z.to_nat gen_accept_status.
 Proof. intros r o H. rewrite H. reflexivity. Qed.
+
+(* ---------- header parsing helpers and the selection loops of accept.go (Gen/ParseCode.v) ---------- *)
+Theorem hs_tokens_is_source : forall h k,
+  hs_tokens h k = flat_map (fun v => map hs_trim (hs_split gen_token_sep (hs_trim v) [])) (hs_values h k).
+Proof. reflexivity. Qed.
+
+Theorem hs_exts_is_source : forall h,
+  hs_exts h = flat_map (fun t => match t with
+                                 | [] => []
+                                 | _ => match map hs_trim (hs_split gen_ext_sep t []) with
+                                        | n :: ps => [{| x_name := n; x_params := ps |}]
+                                        | [] => [] end
+                                 end) (hs_tokens h s_SecExtensions).
+Proof. reflexivity. Qed.
+
+Theorem hs_pname_is_source : forall p, hs_pname p = match hs_split gen_param_sep p [] with n :: _ => n | [] => [] end.
+Proof. reflexivity. Qed.
+
+Fixpoint run_select (name_ok : bytes -> bool) (es : list wsext) (m : cmode) : option copts :=
+  match es with
+  | [] => None
+  | e :: r => if name_ok (x_name e) then match accept_deflate e m with Some c => Some c | None => run_select name_ok r m end
+              else run_select name_ok r m
+  end.
+
+Theorem select_deflate_is_source : forall es m,
+  select_deflate es m = if gen_select_disabled (mode_code m) then None else run_select gen_select_name es m.
+Proof.
+  intros es m.
+  assert (H : forall es, select_deflate_from es m = run_select gen_select_name es m).
+  { induction es0 as [|e r IH]; [reflexivity|]. cbn [select_deflate_from run_select]. unfold gen_select_name.
+    change hs_beq with s_eqb. unfold s_pmd. rewrite IH. reflexivity. }
+  unfold select_deflate, gen_select_disabled. destruct m; cbn; try apply H; reflexivity.
+Qed.
+
+Fixpoint run_find (pick : bytes -> bytes -> bytes) (sp : bytes) (cps : list bytes) : option bytes :=
+  match cps with [] => None | cp :: r => if fold_eq sp cp then Some (pick sp cp) else run_find pick sp r end.
+Fixpoint run_subprotocol (pick : bytes -> bytes -> bytes) (server cps : list bytes) : bytes :=
+  match server with
+  | [] => []
+  | sp :: r => match run_find pick sp cps with Some x => x | None => run_subprotocol pick r cps end
+  end.
+
+Theorem select_subprotocol_is_source : forall server cps,
+  select_subprotocol server cps = run_subprotocol gen_subprotocol_pick server cps.
+Proof.
+  intros server cps.
+  assert (H : forall sp, find_fold sp cps = run_find gen_subprotocol_pick sp cps).
+  { intro sp. induction cps as [|cp r IH]; [reflexivity|]. cbn [find_fold run_find]. rewrite IH. reflexivity. }
+  induction server as [|sp r IH]; [reflexivity|]. cbn [select_subprotocol run_subprotocol]. rewrite H, IH. reflexivity.
+Qed.
